@@ -335,6 +335,28 @@ def run(F, R, tier):
             R.ob("C04-b", "completion-ordered consumer of %s.%s only performs writes keyed by the completed item" % (adt, fname), not bad,
                  "; ".join(bad), where(c))
 
+    # any other value of type FuturesUnordered (locals, collect targets) is a
+    # completion-ordered stream too: its consumer must not be positional
+    fields_ok = {f for _, f in unordered}
+    n_fu = 0
+    for b in F.bodies:
+        if b.get("derived"):
+            continue
+        for n in b["_nodes"]:
+            t = F.ty(n) or ""
+            if not t.startswith("futures::stream::FuturesUnordered<") or n["k"] in ("Pat", "Path", "LetStmt"):
+                continue
+            if n["k"] == "Field" and n["field"] in fields_ok:
+                continue
+            if n["k"] == "Call" and (n.get("fn") or "").endswith("Default::default"):
+                continue
+            n_fu += 1
+            verdict, detail = consumer(F, n)
+            R.ob("C04-b", "completion-ordered stream built in %s is consumed order-insensitively" % b["path"], verdict == "insensitive",
+                 "a FuturesUnordered built here is consumed by %s: results arrive in completion order, so anything positional (zip with the inputs, Vec order) depends on the schedule" % detail,
+                 where(n), key="C04|C04-b|FuturesUnordered|%s" % b["path"])
+    R.analysed["adhoc_futures_unordered_values"] = n_fu
+
     # ---------------- C04-c ------------------------------------------------
     REQUIRED = {
         ("graph::ModuleGraph", "module_slots"): "std::collections::BTreeMap<",
